@@ -1,10 +1,12 @@
 import DswModel.Model.Basic
+import DswModel.Model.Float
 /-!
 # dsw/biofilter.py — `LocalBioFilter`
 
 The three float comparisons of the GC rule are, for integer counts, comparisons with integer
 thresholds; the configuration carries those thresholds as the float expressions of the code
-produce them (the harness recomputes them with the same expressions):
+produce them (`floatGcRule` below computes them from the two bounds with the exact model of
+double-precision rounding in `Model/Float.lean`):
 `gcLo = ⌈lo·k⌉` (`gc < lo*k ↔ gc < gcLo`), `gcHi = ⌊hi·k⌋` (`gc > hi*k ↔ gc > gcHi`),
 `atHi = ⌊k − lo·k⌋` (`at > k − lo*k ↔ at > atHi`).
 -/
@@ -15,6 +17,21 @@ structure GcRule where
   gcHi : Int
   atHi : Int
 deriving DecidableEq, Repr
+
+/-- the thresholds that the code's own double-precision expressions produce for the bounds `lo`, `hi` (doubles, as
+exact fractions) and the window `k`: `gc < lo*k ↔ gc < ⌈fl(lo·k)⌉`, `gc > hi*k ↔ gc > ⌊fl(hi·k)⌋`,
+`at > k - lo*k ↔ at > ⌊fl(k − fl(lo·k))⌋`, where `fl` rounds to the nearest double (`Model/Float.lean`) and `k` is first
+converted with `float()`. `none` when a product would be infinite (CPython then compares with `inf`; outside the model). -/
+def floatGcRule (lo hi : Dbl) (k : Nat) : Option GcRule :=
+  match Dbl.ofInt k with
+  | none => none
+  | some fk =>
+    match lo.mul fk, hi.mul fk with
+    | some a, some b =>
+      match fk.sub a with
+      | some c => some { gcLo := a.ceil, gcHi := b.floor, atHi := c.floor }
+      | none => none
+    | _, _ => none
 
 structure FilterCfg where
   k : Nat
